@@ -14,7 +14,14 @@ func generate(tier string, r *rng.R) []fw.Case {
 	}
 	var cs []fw.Case
 	for i := 0; i < n; i++ {
-		cs = append(cs, envh.GenCase(r.Fork(), profile))
+		switch {
+		case i%4 == 1:
+			cs = append(cs, awaitGroupCase(r.Fork()))
+		case i%10 == 0:
+			cs = append(cs, envh.GenTeardownCase(r.Fork()))
+		default:
+			cs = append(cs, envh.GenCase(r.Fork(), profile))
+		}
 	}
 	return cs
 }
